@@ -951,6 +951,14 @@ def _emit_fn(g, source, a, blocks, vacuity, probe_insert=None):
     body = insert_loop_specs(body, loops, f.name)
     spec = "\n".join(blocks["spec"])
     f.has_requires = bool(re.search(r"\brequires\b", spec))
+    _ltxt = "\n".join(loops.values())
+    if re.search(r"\b(while|loop)\b", body) and not a.get("loop_isolation"):
+        # loops see what is known about the variables they do not modify (a local hoisted in front of a loop by a
+        # behaviour-preserving edit must not break the invariant's proof: benign B19/07)
+        g.lines.append("#[verifier::loop_isolation(false)]")
+        if re.search(r"\binvariant_except_break\b|^\s*ensures\b", _ltxt, re.M):
+            g.lines.append("#[verifier::allow_complex_invariants]")
+        rules.append(("R6", "loop_isolation(false): facts about variables a loop does not modify remain known inside it"))
     f.first = len(g.lines) + 1
     for l in sigtext.split("\n"): g.lines.append(l)
     s0 = len(g.lines) + 1
